@@ -53,8 +53,12 @@ func c15One(c *vf.Ctx, sub string, i int, r *rand.Rand, ids []Ident) {
 	extraAnn := r.Intn(4)
 	nlist := r.Intn(4)
 	delay := []int{0, 200}[r.Intn(2)]
-	desc := fmt.Sprintf("sync=%s close-starts-at=%s closers=%d extra-announcements=%d listeners=%d tap-delay=%d/1000",
-		map[bool]string{true: "announce-triggered", false: "explicit"}[announced], point, closers, extraAnn, nlist, delay)
+	maxAsync := 0
+	if r.Intn(3) == 0 {
+		maxAsync = 1 + r.Intn(5)/4 // mostly 1: the interesting limit
+	}
+	desc := fmt.Sprintf("sync=%s close-starts-at=%s closers=%d extra-announcements=%d listeners=%d tap-delay=%d/1000 max-async=%d",
+		map[bool]string{true: "announce-triggered", false: "explicit"}[announced], point, closers, extraAnn, nlist, delay, maxAsync)
 	c.Cur(sub, i, desc)
 	id := ids[i%len(ids)]
 	pst := NewStore()
@@ -98,7 +102,11 @@ func c15One(c *vf.Ctx, sub string, i int, r *rand.Rand, ids []Ident) {
 	}
 	dst.OnPut = func(key string) { note("store-write " + key) }
 	hook := func(p peer.ID, cd cid.Cid, _ dagsync.SegmentSyncActions) { note("hook " + cd.String()) }
-	s, err := newSubscriber(dst, dagsync.RecvAnnounce(""), dagsync.BlockHook(hook))
+	sopts := []dagsync.Option{dagsync.RecvAnnounce(""), dagsync.BlockHook(hook)}
+	if maxAsync > 0 {
+		sopts = append(sopts, dagsync.MaxAsyncConcurrency(maxAsync))
+	}
+	s, err := newSubscriber(dst, sopts...)
 	if err != nil {
 		c.Fail(sub, i, "harness-subscriber", err.Error(), nil)
 		return
@@ -201,6 +209,21 @@ func c15One(c *vf.Ctx, sub string, i int, r *rand.Rand, ids []Ident) {
 		}
 	} else if !announced {
 		<-syncDone // "none": Close after the sync completed
+	}
+	// with a concurrency limit of 1 and the gated announce-triggered sync holding the slot, park another
+	// publisher's handling goroutine on the semaphore before Close starts
+	holdsSlot := map[string]bool{"pending.taken": true, "sync.enter": true, "front": true, "sync.exit": true, "event.emit.begin": true}
+	if announced && maxAsync == 1 && holdsSlot[point] {
+		lockedBefore := tl.count("async.locked")
+		if err := s.Announce(context.Background(), chain2.Head(), front2.AddrInfo()); err == nil {
+			deadline := time.Now().Add(10 * time.Second)
+			for tl.count("async.locked") <= lockedBefore && time.Now().Before(deadline) {
+				time.Sleep(100 * time.Microsecond)
+			}
+			if tl.count("async.locked") > lockedBefore {
+				c.Inc("close_with_sync_waiting_for_async_slot")
+			}
+		}
 	}
 	// racing activity
 	var rwg sync.WaitGroup
